@@ -406,32 +406,37 @@ fn through_insert(r: &mut Report, d: &DDiff, stream: &str) {
 // generators
 // =====================================================================================
 // name kinds of the truth table; None = absent in the chosen namespace
-const CLASS_KINDS: [(&str, Option<&str>); 13] = [
+const CLASS_KINDS: [(&str, Option<&str>); 17] = [
 	("placeholder", Some("C_1")), ("unmapped-placeholder", Some("net/minecraft/unmapped/C_77")), ("pkg/C_", Some("pkg/C_1")),
 	("nested Outer$C_", Some("Outer$C_1")), ("prefix-in-the-middle", Some("xC_1")), ("ends-with-prefix", Some("AC_")),
 	("real", Some("Real")), ("absent", None), ("bare-prefix", Some("C_")), ("unmapped-real", Some("net/minecraft/unmapped/Real")),
 	("bare-unmapped-prefix", Some("net/minecraft/unmapped/C_")), ("lower-case", Some("c_1")), ("prefix-without-underscore", Some("C1")),
+	// the rule is a pure PREFIX rule: whatever follows the prefix (a further package separator, `$`, letters) is irrelevant
+	("placeholder-then-slash", Some("C_12/Foo")), ("unmapped-placeholder-then-slash", Some("net/minecraft/unmapped/C_5/Bar")),
+	("placeholder-then-dollar", Some("C_1$Inner")), ("placeholder-non-numeric", Some("C_abc")),
 ];
-const FIELD_KINDS: [(&str, Option<&str>); 9] = [
+const FIELD_KINDS: [(&str, Option<&str>); 10] = [
 	("placeholder", Some("f_1")), ("prefix-in-the-middle", Some("xf_1")), ("ends-with-prefix", Some("af_")), ("real", Some("real")),
-	("absent", None), ("bare-prefix", Some("f_")), ("upper-case", Some("F_1")), ("other-level-prefix", Some("m_1")), ("prefix-without-underscore", Some("f1")),
+	("absent", None), ("bare-prefix", Some("f_")), ("upper-case", Some("F_1")), ("other-level-prefix", Some("m_1")), ("prefix-without-underscore", Some("f1")), ("placeholder-non-numeric", Some("f_abc$x")),
 ];
-const METHOD_KINDS: [(&str, Option<&str>); 13] = [
+const METHOD_KINDS: [(&str, Option<&str>); 15] = [
 	("placeholder", Some("m_1")), ("prefix-in-the-middle", Some("xm_1")), ("ends-with-prefix", Some("am_")), ("real", Some("real")),
 	("absent", None), ("<init>", Some("<init>")), ("<clinit>", Some("<clinit>")), ("<init>-then-more", Some("<init>x")),
 	("ends-with-<init>", Some("x<init>")), ("bare-prefix", Some("m_")), ("other-level-prefix", Some("f_1")), ("<Init>", Some("<Init>")), ("prefix-without-underscore", Some("m1")),
+	("placeholder-non-numeric", Some("m_abc$x")), ("<clinit>-then-more", Some("<clinit>0")),
 ];
-const PARAM_KINDS: [(&str, Option<&str>); 8] = [
+const PARAM_KINDS: [(&str, Option<&str>); 10] = [
 	("placeholder", Some("p_1")), ("prefix-in-the-middle", Some("xp_1")), ("ends-with-prefix", Some("ap_")), ("real", Some("real")),
-	("absent", None), ("bare-prefix", Some("p_")), ("upper-case", Some("P_1")), ("prefix-without-underscore", Some("p1")),
+	("absent", None), ("bare-prefix", Some("p_")), ("upper-case", Some("P_1")), ("prefix-without-underscore", Some("p1")), ("placeholder-non-numeric", Some("p_abc")), ("placeholder-then-more", Some("p_1x")),
 ];
 
+/// doc: 0 = no comment, 1 = a comment, 2 = the EMPTY comment Some("") (it is a comment: the entry must be kept)
 #[derive(Clone, Copy)]
-struct Node { kind: usize, doc: bool }
+struct Node { kind: usize, doc: u8 }
 #[derive(Clone, Copy)]
 struct Path { class: Node, field: Option<Node>, meth: Option<(Node, Option<Node>)>, ns: usize, src_placeholder: bool }
 
-fn doc_of(b: bool) -> Option<S> { if b { Some(s("a comment")) } else { None } }
+fn doc_of(b: u8) -> Option<S> { match b { 0 => None, 1 => Some(s("a comment")), _ => Some(vec![]) } }
 /// a row for 2 namespaces: when the chosen namespace is 1 the first cell is the source name and the
 /// second the kind; when it is 0 the first cell is the kind (an absent kind falls back to the source
 /// name for keyed entries) and the second a placeholder that must be irrelevant
@@ -454,7 +459,9 @@ fn single_path(p: &Path) -> Option<MMappings> {
 		}
 		c.methods.push(me);
 	}
-	Some(MMappings { ns: vec![s("official"), s("named")], doc: None, classes: vec![c] })
+	// the comment of the mapping set itself (never looked at by the filter, must come back unchanged — also when every class goes)
+	let top = match p.class.kind % 4 { 1 => Some(s("a comment on the mappings")), 2 => Some(vec![]), _ => None };
+	Some(MMappings { ns: vec![s("official"), s("named")], doc: top, classes: vec![c] })
 }
 fn run_path(r: &mut Report, p: &Path, stream: &str) {
 	if let Some(m) = single_path(p) {
@@ -469,11 +476,31 @@ fn run_path(r: &mut Report, p: &Path, stream: &str) {
 	}
 }
 
-fn all_nodes(kinds: usize) -> Vec<Node> { (0..kinds).flat_map(|k| [false, true].into_iter().map(move |doc| Node { kind: k, doc })).collect() }
+fn all_nodes(kinds: usize) -> Vec<Node> { (0..kinds).flat_map(|k| [0u8, 1].into_iter().map(move |doc| Node { kind: k, doc })).collect() }
+
+/// the empty comment Some("") at every level, for every name kind: `javadoc.is_some()` keeps the entry (and its parents),
+/// a test for a NON-EMPTY comment would not.  Parents are placeholders without comment, so the difference cascades upwards.
+fn remove_empty_comment_tables(r: &mut Report) {
+	let n = |kind, doc: u8| Node { kind, doc };
+	for ns in [1usize, 0] {
+		for k in 0..PARAM_KINDS.len() { for me in [n(0, 0), n(5, 0), n(3, 0)] {
+			run_path(r, &Path { class: n(0, 0), field: None, meth: Some((me, Some(n(k, 2)))), ns, src_placeholder: false }, "table-empty-comment");
+		} }
+		for k in 0..FIELD_KINDS.len() { for cl in [n(0, 0), n(1, 0), n(6, 0)] {
+			run_path(r, &Path { class: cl, field: Some(n(k, 2)), meth: None, ns, src_placeholder: false }, "table-empty-comment");
+		} }
+		for k in 0..METHOD_KINDS.len() { for pa in [None, Some(n(0, 0)), Some(n(0, 2))] { for cl in [n(0, 0), n(1, 0)] {
+			run_path(r, &Path { class: cl, field: None, meth: Some((n(k, 2), pa)), ns, src_placeholder: false }, "table-empty-comment");
+		} } }
+		for k in 0..CLASS_KINDS.len() { for f in [None, Some(n(0, 0)), Some(n(0, 2))] { for me in [None, Some((n(0, 0), None)), Some((n(5, 0), Some(n(0, 0))))] {
+			run_path(r, &Path { class: n(k, 2), field: f, meth: me, ns, src_placeholder: false }, "table-empty-comment");
+		} } }
+	}
+}
 
 /// the level tables: every (name kind x comment) of one level against representative parents and children
 fn remove_tables(r: &mut Report) {
-	let n = |kind, doc| Node { kind, doc };
+	let n = |kind, doc: bool| Node { kind, doc: doc as u8 };
 	// representatives: removed-if-alone, kept-by-comment, kept-by-name
 	let rep_param = [None, Some(n(0, false)), Some(n(0, true)), Some(n(3, false)), Some(n(4, false))];
 	let rep_field = [None, Some(n(0, false)), Some(n(0, true)), Some(n(3, false))];
@@ -518,7 +545,7 @@ fn remove_tables(r: &mut Report) {
 /// net/minecraft/unmapped/C_… for classes, <init> for methods): 10 x 9 x 91 = 8 190 trees
 fn remove_product(r: &mut Report, rng: &mut Rng, sample: Option<usize>) {
 	let pick_kinds = |all: usize, reduced: &[usize]| -> Vec<Node> {
-		if sample.is_some() { all_nodes(all) } else { reduced.iter().flat_map(|&k| [false, true].into_iter().map(move |doc| Node { kind: k, doc })).collect() }
+		if sample.is_some() { all_nodes(all) } else { reduced.iter().flat_map(|&k| [0u8, 1].into_iter().map(move |doc| Node { kind: k, doc })).collect() }
 	};
 	let opt = |v: Vec<Node>| -> Vec<Option<Node>> { std::iter::once(None).chain(v.into_iter().map(Some)).collect() };
 	let classes = pick_kinds(CLASS_KINDS.len(), &[0, 1, 4, 6, 7]);
@@ -528,7 +555,12 @@ fn remove_product(r: &mut Report, rng: &mut Rng, sample: Option<usize>) {
 	for me in pick_kinds(METHOD_KINDS.len(), &[0, 1, 3, 4, 5]) { for pa in &params { meths.push(Some((me, *pa))); } }
 	match sample {
 		Some(k) => for _ in 0..k {
-			let p = Path { class: *rng.pick(&classes), field: *rng.pick(&fields), meth: *rng.pick(&meths), ns: if rng.chance(1, 6) { 0 } else { 1 }, src_placeholder: rng.chance(1, 4) };
+			let mut p = Path { class: *rng.pick(&classes), field: *rng.pick(&fields), meth: *rng.pick(&meths), ns: if rng.chance(1, 6) { 0 } else { 1 }, src_placeholder: rng.chance(1, 4) };
+			// one comment in six is the empty one
+			let e = |rng: &mut Rng, n: &mut Node| if n.doc == 1 && rng.chance(1, 6) { n.doc = 2; };
+			e(rng, &mut p.class);
+			if let Some(f) = &mut p.field { e(rng, f); }
+			if let Some((m, pa)) = &mut p.meth { e(rng, m); if let Some(pa) = pa { e(rng, pa); } }
 			run_path(r, &p, "product-sample");
 		},
 		None => for cl in &classes { for f in &fields { for me in &meths {
@@ -537,15 +569,17 @@ fn remove_product(r: &mut Report, rng: &mut Rng, sample: Option<usize>) {
 	}
 }
 
-const DUMMY_CLASS: [&str; 7] = ["C_1", "C_204", "net/minecraft/unmapped/C_5", "a/C_1", "Outer$C_2", "C_", "C9"];
-const DUMMY_FIELD: [&str; 5] = ["f_1", "f_22", "f_", "af_1", "f2"];
-const DUMMY_METH: [&str; 8] = ["m_1", "m_33", "<init>", "<clinit>", "m_", "am_1", "<init>2", "m3"];
-const DUMMY_PARAM: [&str; 5] = ["p_1", "p_0", "p_", "ap_1", "p4"];
+const DUMMY_CLASS: [&str; 10] = ["C_1", "C_204", "net/minecraft/unmapped/C_5", "a/C_1", "Outer$C_2", "C_", "C9", "C_12/Foo", "net/minecraft/unmapped/C_5/Bar", "C_1$In"];
+const DUMMY_FIELD: [&str; 6] = ["f_1", "f_22", "f_", "af_1", "f2", "f_x"];
+const DUMMY_METH: [&str; 9] = ["m_1", "m_33", "<init>", "<clinit>", "m_", "am_1", "<init>2", "m3", "m_x"];
+const DUMMY_PARAM: [&str; 6] = ["p_1", "p_0", "p_", "ap_1", "p4", "p_x"];
 
 /// pushes a random tree towards the interesting region: many placeholder names in the chosen
 /// namespace and few comments, so that removals cascade
 fn dummify(rng: &mut Rng, m: &mut MMappings, i: usize) {
-	let strip = |rng: &mut Rng, d: &mut Option<S>| if rng.chance(2, 3) { *d = None; };
+	let strip = |rng: &mut Rng, d: &mut Option<S>| if rng.chance(2, 3) { *d = None; } else if rng.chance(1, 4) { *d = Some(vec![]); };
+	// the comment of the mapping set itself: absent, present, empty (the shared generator leaves it absent)
+	m.doc = match rng.below(4) { 0 => Some(s("about these mappings")), 1 => Some(vec![]), _ => None };
 	for c in &mut m.classes {
 		if i > 0 { if rng.chance(1, 2) { c.names[i] = Some(s(*rng.pick(&DUMMY_CLASS[..]))); } else if rng.chance(1, 6) { c.names[i] = None; } }
 		strip(rng, &mut c.doc);
@@ -573,9 +607,14 @@ fn info_kind(k: usize, ph: &S) -> DAct {
 		7 => DAct::Edit(s("old"), ph.clone()), _ => DAct::Add(ph.clone()),
 	}
 }
-const DOC_KINDS: [&str; 5] = ["None", "Add", "Remove", "Edit(a,b)", "Edit(a,a)"];
+const DOC_KINDS: [&str; 10] = ["None", "Add", "Remove", "Edit(a,b)", "Edit(a,a)", "Add(empty)", "Remove(empty)", "Edit(empty,empty)", "Edit(empty,a)", "Edit(a,empty)"];
+/// the first five are crossed with everything; the five with the EMPTY comment run against reduced parents / children
+const MAIN_DOC_KINDS: usize = 5;
 fn doc_kind(k: usize) -> DAct {
-	match k { 0 => DAct::None, 1 => DAct::Add(s("doc")), 2 => DAct::Remove(s("doc")), 3 => DAct::Edit(s("doc"), s("other doc")), _ => DAct::Edit(s("doc"), s("doc")) }
+	match k {
+		0 => DAct::None, 1 => DAct::Add(s("doc")), 2 => DAct::Remove(s("doc")), 3 => DAct::Edit(s("doc"), s("other doc")), 4 => DAct::Edit(s("doc"), s("doc")),
+		5 => DAct::Add(vec![]), 6 => DAct::Remove(vec![]), 7 => DAct::Edit(vec![], vec![]), 8 => DAct::Edit(vec![], s("doc")), _ => DAct::Edit(s("doc"), vec![]),
+	}
 }
 const CLASS_KEYS: [&str; 12] = ["A", "pkg/A", "a/Outer$Inner", "A$B$C", "pkg/A$1", "$B", "A$", "a/$B", "A$b/C", "a$b/Outer$In", "$", "a/b$/C$D"];
 const PARAM_INDICES: [u64; 6] = [0, 3, 10, 255, 4294967296, u64::MAX];
@@ -589,7 +628,7 @@ fn dclass(key: &str, ik: usize, dk: usize, fields: Vec<DField>, methods: Vec<DMe
 fn ddiff(classes: Vec<DClass>) -> DDiff { DDiff { info: DAct::None, doc: DAct::None, classes } }
 
 fn insert_tables(r: &mut Report) {
-	let nk = INFO_KINDS.len(); let nd = DOC_KINDS.len();
+	let nk = INFO_KINDS.len(); let nd = MAIN_DOC_KINDS;
 	let go = |r: &mut Report, d: DDiff, stream: &str, level: &str, ik: usize, dk: usize| {
 		r.count(&format!("table:diff-{level}:info={}", INFO_KINDS[ik]));
 		r.count(&format!("table:diff-{level}:javadoc={}", DOC_KINDS[dk]));
@@ -615,6 +654,15 @@ fn insert_tables(r: &mut Report) {
 	for ik in 0..nk { for dk in 0..nd { for fs in &rep_fields { for ms in &rep_meths {
 		go(r, ddiff(vec![dclass("a/Outer$Inner", ik, dk, fs.clone(), ms.clone())]), "table-diff-class", "class", ik, dk);
 	} } } }
+	// comment actions with the EMPTY comment (Edit("","") changes nothing; Add("") / Remove("") / Edit("",a) do), every level, reduced surroundings
+	for ik in 0..nk { for dk in MAIN_DOC_KINDS..DOC_KINDS.len() {
+		go(r, ddiff(vec![dclass("a/Outer$Inner", 0, 0, vec![], vec![dmeth("m", 0, 0, vec![dparam(3, ik, dk)])])]), "table-diff-empty-comment", "parameter", ik, dk);
+		go(r, ddiff(vec![dclass("a/Outer$Inner", 0, 0, vec![dfield("f", ik, dk)], vec![])]), "table-diff-empty-comment", "field", ik, dk);
+		for ps in [vec![], vec![dparam(1, 0, 0)], vec![dparam(1, 0, 7)]] { go(r, ddiff(vec![dclass("A", 0, 0, vec![], vec![dmeth("m", ik, dk, ps)])]), "table-diff-empty-comment", "method", ik, dk); }
+		for fs in [vec![], vec![dfield("f", 0, 0)], vec![dfield("f", 0, 7)]] { for ms in [vec![], vec![dmeth("m", 0, 7, vec![])]] {
+			go(r, ddiff(vec![dclass("a/Outer$Inner", ik, dk, fs.clone(), ms)]), "table-diff-empty-comment", "class", ik, dk);
+		} }
+	} }
 	// class keys: what the placeholder of a removed class is
 	for key in CLASS_KEYS { for ik in 0..nk { for dk in [0, 1] {
 		r.count(&format!("table:diff-class-key:{key}"));
@@ -632,7 +680,7 @@ fn gen_act(rng: &mut Rng, ph: &S, pool: &[&str]) -> DAct {
 	}
 }
 fn gen_doc_act(rng: &mut Rng) -> DAct {
-	const D: [&str; 4] = ["a comment", "two\nlines", "x", "ünï"];
+	const D: [&str; 5] = ["a comment", "two\nlines", "x", "ünï", ""];
 	match rng.below(12) {
 		0 => DAct::Add(s(*rng.pick(&D[..]))), 1 => DAct::Remove(s(*rng.pick(&D[..]))),
 		2 => { let a = s(*rng.pick(&D[..])); let b = if rng.chance(1, 3) { a.clone() } else { s(*rng.pick(&D[..])) }; DAct::Edit(a, b) }
@@ -690,11 +738,27 @@ impl QuietStderr {
 }
 impl Drop for QuietStderr { fn drop(&mut self) { if self.saved >= 0 { unsafe { dup2(self.saved, 2); close(self.saved); } } } }
 
+/// reorder the cases so that the shards (fixed number of cases each) get about the same number of bytes
+fn balance(r: &mut Report, shards: usize) {
+	let mut cs = std::mem::take(&mut r.cases);
+	cs.sort_by_key(|c| std::cmp::Reverse(c.len()));
+	let k = shards.max(1);
+	let mut buckets: Vec<Vec<String>> = vec![vec![]; k];
+	for (i, c) in cs.into_iter().enumerate() { let round = i / k; let pos = if round % 2 == 0 { i % k } else { k - 1 - i % k }; buckets[pos].push(c); }
+	let per = buckets.iter().map(|b| b.len()).max().unwrap_or(1).max(1);
+	r.shard_size = per;
+	let mut flat = vec![];
+	// chunks() cuts by count: buckets with `per` cases first, those that are one short last
+	buckets.sort_by_key(|b| std::cmp::Reverse(b.len()));
+	for b in buckets { flat.extend(b); }
+	r.cases = flat;
+}
+
 pub fn run(ctx: &Ctx) -> anyhow::Result<Report> {
 	let _quiet = QuietStderr::new();
 	let mut r = Report::new("C10", "C10.Run");
 	let mut rng = Rng::new(ctx.seed);
-	r.rule = "remove_dummy: (1) level tables, exhaustive: every name kind of a level (placeholder, net/minecraft/unmapped/C_…, pkg/C_…, nested Outer$C_…, prefix in the middle, name ending with the prefix, prefix without the underscore, real, absent, bare prefix, other case, <init>, <clinit>, <init>x, x<init>, other level's prefix) x comment yes/no, against representative parents and children (none / removed / kept by comment / kept by name), for chosen namespace = second (source names real or placeholder-like) and = first; (2) the product of the four levels for single-path trees of depth 4: a random sample over all kinds (quick 1000, thorough 15000 of 218 842) and, thorough only, the full product over the reduced kind sets (8 190); (3) random bushy trees from mapmodel::gen_mappings with 2-4 namespaces pushed towards placeholder names, every namespace chosen in turn, plus an unknown and a duplicated namespace name. insert_dummy: level tables 9 name actions (None, Add, Remove(old), Remove(placeholder), Edit, Edit(same,same), …) x 5 comment actions x representative children and parents, 12 class-key shapes for the simple-inner-name placeholder, parameter indices up to usize::MAX; random bushy diffs and a shuffled copy. Non-trivial: the tree is non-empty and the call returned Ok; distinct by the Gallina text of input + namespace.".into();
+	r.rule = "remove_dummy: (1) level tables, exhaustive: every name kind of a level (placeholder, net/minecraft/unmapped/C_…, pkg/C_…, nested Outer$C_…, placeholder prefix followed by `/…`, `$…` or letters (C_12/Foo, net/minecraft/unmapped/C_5/Bar, C_1$Inner, C_abc, f_abc$x, p_1x: a pure prefix rule), prefix in the middle, name ending with the prefix, prefix without the underscore, real, absent, bare prefix, other case, <init>, <clinit>, <init>x, x<init>, other level's prefix) x comment yes/no, against representative parents and children (none / removed / kept by comment / kept by name), for chosen namespace = second (source names real or placeholder-like) and = first; (1a) the EMPTY comment Some(\"\") at every level for every name kind under comment-free placeholder parents (it is a comment: entry and parents stay), and as one comment in six of the product sample and one in twelve of the random trees; the comment of the mapping set itself is absent / present / empty (table paths by class kind, random trees at random) and must come back unchanged; (2) the product of the four levels for single-path trees of depth 4: a random sample over all kinds (quick 1000, thorough 15000 of 218 842) and, thorough only, the full product over the reduced kind sets (8 190); (3) random bushy trees from mapmodel::gen_mappings with 2-4 namespaces pushed towards placeholder names, every namespace chosen in turn, plus an unknown and a duplicated namespace name. insert_dummy: level tables 9 name actions (None, Add, Remove(old), Remove(placeholder), Edit, Edit(same,same), …) x 5 comment actions x representative children and parents, the 5 comment actions with the empty comment (Add(\"\"), Remove(\"\"), Edit(\"\",\"\") = no change, Edit(\"\",a), Edit(a,\"\")) x 9 name actions at every level against reduced surroundings, 12 class-key shapes for the simple-inner-name placeholder, parameter indices up to usize::MAX; random bushy diffs and a shuffled copy. Non-trivial: the tree is non-empty and the call returned Ok; distinct by the Gallina text of input + namespace.".into();
 
 	// decimal printing and inner-class names, on their own
 	for n in [0u64, 1, 9, 10, 11, 99, 100, 101, 255, 256, 999, 1000, 65535, 65536, 4294967295, 4294967296, 9999999999, 10000000000, u64::MAX - 1, u64::MAX] {
@@ -719,6 +783,7 @@ pub fn run(ctx: &Ctx) -> anyhow::Result<Report> {
 
 	// ---- remove_dummy ----
 	remove_tables(&mut r);
+	remove_empty_comment_tables(&mut r);
 	if ctx.thorough { remove_product(&mut r, &mut rng, None); r.notes.push("full product of the four levels over the reduced kind sets enumerated (8 190 single-path trees; namespace = second, real source names)".into()); }
 	remove_product(&mut r, &mut rng, Some(if ctx.thorough { 15000 } else { 1000 }));
 	r.exhaustive = true;
@@ -804,6 +869,7 @@ pub fn run(ctx: &Ctx) -> anyhow::Result<Report> {
 		through_insert(&mut r, &d, "random-diff");
 		if k % 10 == 0 { let d2 = shuffled_diff(&mut rng, &d); through_insert(&mut r, &d2, "random-diff-shuffled"); }
 	}
+	balance(&mut r, if ctx.thorough { 48 } else { 16 });
 	Ok(r)
 }
 
